@@ -653,11 +653,12 @@ def signature(sp, cid, payload, exp, obs):
         else:
             fn = "unary +" if src.startswith("+") else "- 0"
         if fn.endswith("parseInt"):
-            q = src.rfind('"')
-            rest = src[q + 1:]
             if src.endswith('"16")'):
-                rest = ', "16")'
-            fn += "(s%s" % rest
+                r = '"16"'
+            else:
+                r = src[src.rfind('"') + 1:].strip(",) ")
+            fn += {"": "(s)", "0": "(s, 0)", "NaN": "(s, NaN)", "1": "(s, radix outside 2..36)",
+                   "37": "(s, radix outside 2..36)"}.get(r, "(s, explicit radix)")
         k = mismatch_kind(exp, obs)
         if k == "wrong type (I for d)":
             k = "host integer that is not a double"
@@ -668,6 +669,8 @@ def signature(sp, cid, payload, exp, obs):
     if name.startswith("c18_math"):
         if src.startswith("typeof"):
             return "math|surface", "Math function of ES2015 is not installed"
+        if src.startswith("Number."):
+            return "number|constant", "value property of the Number constructor is missing"
         fn = _math_fn(src) or src
         k = mismatch_kind(exp, obs)
         if k == "wrong number":
